@@ -122,6 +122,13 @@ def run_case(case):
         obj.update(traces[pos:pos + s], data[pos:pos + s])
         pos += s
     with np.errstate(all='ignore'):
+        if rng.random() < 0.4:
+            first = obj.compute()
+            try:
+                first[...] = 7.0          # the caller's own business (e.g. NaN clean-up in place); the statistic asked for again is unaffected
+            except (ValueError, TypeError):
+                pass
+            t.count('recomputed_after_caller_overwrote_the_first_result')
         got = np.asarray(obj.compute())
     x = np.asarray(traces)
     val, scale, undef = (oracles.dpa if name == 'dpa' else oracles.cpa)(x, data.reshape(n, -1))
